@@ -178,6 +178,39 @@ def gen_ctr(ctx):
     # a 4100-block stream made of single large calls only (bulk path end to end)
     cases.append("ctr %s I%s S%s s%s" % (key_tok(r), nonce_tok(r), hx(rbytes(r, 16 * 4100)), hx(rbytes(r, 33))))
     ctx.count("aes.ctr.4100-blocks")
+    # 4b. WHITE-BOX seek (token J: stream->bytectr = 16*B right after init2, pblk[15] still 0xff):
+    # counter carries out of byte 1, 2, 3, 4, 5, 6, 7 without producing the keystream in between.
+    # Patterns: one call across the boundary (AES-NI whole-block loop), several small calls across
+    # it, a partial block first (so that pblk[15] != 0xff when the wrap happens), and partial /
+    # >= 16 bytes ending exactly on a block boundary / 1..15 bytes (pblk write-back of the bulk path).
+    for k in (8, 16, 24, 32, 40, 48, 56):
+        for d in ((1, 2, 3) if k > 8 else (1, 3)):
+            for variant in range(ctx.n(5, 12)):
+                B = (1 << k) - d
+                toks = [key_tok(r), r.choice("IN") + nonce_tok(r)]
+                if toks[1][0] == "N":
+                    toks.insert(1, "A")
+                toks.append("J%016x" % (16 * B))
+                if variant == 0:        # one call across
+                    toks.append(stream_tok(r, r.choice([17, 48, 100, 16 * d + 16, 16 * d + 1, 4096])))
+                    toks.append(stream_tok(r, r.choice([1, 16, 33])))
+                elif variant == 1:      # small calls across
+                    pos = 0
+                    while pos < 16 * d + 40:
+                        n = r.choice([1, 15, 16, 17])
+                        toks.append(stream_tok(r, n)); pos += n
+                elif variant == 2:      # partial first, then one call across
+                    p0 = r.randrange(1, 16)
+                    toks += [stream_tok(r, p0), stream_tok(r, r.choice([100, 48 + 16 * d, 4096, 16 * d + 16 - p0 + 5])), stream_tok(r, 7)]
+                elif variant == 3:      # partial, >= 16 bytes ending exactly on a block boundary, 1..15 bytes
+                    p0 = r.randrange(1, 16)
+                    toks += [stream_tok(r, p0), stream_tok(r, 16 - p0 + 16 * r.choice([1, d, d + 1])), stream_tok(r, r.randrange(1, 16)),
+                             stream_tok(r, 20)]
+                else:                   # random mix
+                    for _ in range(r.randrange(2, 7)):
+                        toks.append(stream_tok(r, r.choice(SIZES + [48, 100, 300])))
+                cases.append("ctr " + " ".join(toks))
+                ctx.count("aes.ctr.seek-2^%d" % k)
     # 5. second counter byte carry at block 65536 (thorough)
     if not ctx.quick:
         for variant in range(3):
@@ -319,11 +352,11 @@ def check_aes_block(ctx):
         return
     _selftest_vectors(ctx, sub, mexe)
     allc, seen = [], set()
-    for cfg in ("aesni", "sw"):
-        cases = gen_block(ctx, False)
-        if cfg == "aesni" and host_has_aes():
-            cases += gen_block(ctx, True)
-        impl = _run_cfg(ctx, sub, cfg, cases, mexe, slow_every=7)
+    batches = [("aesni", True)] if host_has_aes() else []      # the _aesni functions called directly: first,
+    batches += [("aesni", False), ("sw", False)]               # so that a wrong AES-NI path yields a concrete input
+    for cfg, direct in batches:
+        cases = gen_block(ctx, direct)
+        impl = _run_cfg(ctx, sub + (".direct" if direct else ""), cfg, cases, mexe, slow_every=7)
         if impl:
             allc += cases
             seen |= set((cfg, c, i) for c, i in zip(cases, impl))
@@ -353,7 +386,8 @@ def check_aes_ctr(ctx):
                "CTR scripts init/alloc+init2/re-init (new key, NULL key)/stream*/buf/free with in-place and separate "
                "buffers; call sizes {0,1,15,16,17,31,32,33}+multi-KiB, alternating <16 / >=16 byte calls at every "
                "bytectr mod 16, positions straddling blocks 255..258 and 4100-block streams (thorough: 65535..65538 and "
-               "70000 blocks); AES-NI build vs stream_cfg true (bulk path model), software build vs the portable loop; "
+               "70000 blocks); white-box seek (stream->bytectr = 16*B after init2) to B = 2^k - d, k = 8..56, crossing the "
+               "counter-byte carries in one call / several calls / with a partial block first; AES-NI build vs stream_cfg true (bulk path model), software build vs the portable loop; "
                "both vs ctr_spec of the concatenated data per (key, nonce) epoch",
                samples=[cases[0][:160], cases[len(cases) // 2][:160]] if cases else [])
 
